@@ -174,6 +174,19 @@ def run_case(case, ctx):
     f = X.compile_np(tree)
     z0 = complex(case['z0'][0], case['z0'][1]) if case['z0'][1] else case['z0'][0]
     n = case['n']
+    # the same expansion point / order in other legal types
+    zform = ['native', 'native', 'native', 'np_scalar', 'complex0', 'zero_d', 'np_int_n'][(case['n'] * 7 + int(abs(case['z0'][0]) * 1000)) % 7]
+    z0_given, n_given = z0, n
+    if zform == 'np_scalar':
+        z0_given = np.complex128(z0) if isinstance(z0, complex) else np.float64(z0)
+    elif zform == 'complex0' and not isinstance(z0, complex):
+        z0_given = complex(z0, 0.0)
+    elif zform == 'zero_d':
+        z0_given = np.array(z0)
+    elif zform == 'np_int_n':
+        n_given = np.int64(n)
+    if zform != 'native':
+        ctx.count('arguments_given_as:' + zform)
     kw = dict(full_output=True)
     if case['r'] is not None:
         kw.update(r=case['r'], step_ratio=case['step_ratio'], num_extrap=case['num_extrap'])
@@ -181,11 +194,11 @@ def run_case(case, ctx):
     try:
         with np.errstate(all='ignore'):
             if case['via'] == 'Taylor':
-                coefs, info = fb.Taylor(f, n=n, **kw)(z0)
+                coefs, info = fb.Taylor(f, n=n_given, **kw)(z0_given)
             else:
-                coefs, info = fb.taylor(f, z0, n=n, **kw)
+                coefs, info = fb.taylor(f, z0_given, n=n_given, **kw)
             if case['via'] == 'derivative':
-                dcoefs, dinfo = fb.derivative(f, z0, n=n, **kw)
+                dcoefs, dinfo = fb.derivative(f, z0_given, n=n_given, **kw)
     except Exception as exc:
         ctx.reject('raised', observed='%s: %s' % (type(exc).__name__, str(exc)[:200]), exc_type=type(exc).__name__,
                    family=case['family'], n=n)
